@@ -80,9 +80,9 @@ PROPS = {
     },
     'C09': {
         'title': 'Typestate and dynamic modes are observationally equivalent',
-        'level_text': "Proof (C09.handle_is_typed, typed_method_iff, error_correspondence): for every state, declared event, payload, history and hook environment, handle runs exactly the typed method that exists for that event on the current state (same hook trace, same resulting machine, guard-failed/action-failed errors mapped with the same names, panics propagating) and an event has no typed method on the current state exactly when the wrapper refuses it as an invalid transition.",
+        'level_text': "Proof (C09.handle_is_typed, typed_method_iff, error_correspondence): for every state, declared event, payload, history and hook environment, handle runs exactly the typed method that exists for that event on the current state (same hook trace, same resulting machine, guard-failed/action-failed errors mapped with the same names, panics propagating) and an event has no typed method on the current state exactly when the wrapper refuses it as an invalid transition. RefineReply.step_reply / replies_refine: along every history under scripted hooks, each reply of handle is exactly the abstract machine's reply - Ok, InvalidTransition{from: current leaf, event} when no edge, the first vetoing around callback's error, else GuardFailed naming the first guard answering false / unless-condition answering true and the declared event.",
         'level_note': 'Same side conditions as C01. Ties: T2 region HD, T3 (same operations through handle and through into_<s>/typed call/into_dynamic).',
-        'modules': ['SMV.Props.C09'],
+        'modules': ['SMV.Props.C09', 'SMV.Props.RefineReply'],
         'regions': ['HD', 'EV', 'SIG'],
         't3': ['walk', 'assign'],
         't5': True,
@@ -108,9 +108,9 @@ PROPS = {
     },
     'C12': {
         'title': 'Errors and event names report exactly what was declared',
-        'level_text': "Proof (C12.method_name_declared, event_name_declared, state_name_declared, error_names_event, invalid_names_state, from_guard_error_preserves, constructors_build_what_they_say; with C03.first_block and C06.before_abort for the blocking hook's name): generated method names and Event::name() are the declared snake_case names, every error carries the declared event, every InvalidTransition returned by handle names the state the machine was in, the core conversion and constructors and the abort macros keep kind and names.",
+        'level_text': "Proof (C12.method_name_declared, event_name_declared, state_name_declared, error_names_event, invalid_names_state, from_guard_error_preserves, constructors_build_what_they_say; with C03.first_block and C06.before_abort for the blocking hook's name): generated method names and Event::name() are the declared snake_case names, every error carries the declared event, every InvalidTransition returned by handle names the state the machine was in, the core conversion and constructors and the abort macros keep kind and names. RefineReply.step_reply / replies_refine: along every history under scripted hooks, each reply of handle is exactly the abstract machine's reply - Ok, InvalidTransition{from: current leaf, event} when no edge, the first vetoing around callback's error, else GuardFailed naming the first guard answering false / unless-condition answering true and the declared event.",
         'level_note': 'Ties: T2 regions FE GC AB AA EV HD, T3, T5 (real core functions and abort macros on the whole finite error algebra). History: the unchanged snapshot returned from: "" for an around abort of kind InvalidTransition (F2), fixed by /repo commit caca8a2.',
-        'modules': ['SMV.Props.C12'],
+        'modules': ['SMV.Props.C12', 'SMV.Props.RefineReply'],
         'regions': ['FE', 'GC', 'AB', 'AA', 'EV', 'HD'],
         't3': ['walk', 'assign'],
         't5': True,
@@ -118,9 +118,9 @@ PROPS = {
     },
     'C15': {
         'title': 'Async machines behave exactly like their sync counterparts',
-        'level_text': "Proof (C15.runAsync_eq_run, methodProg_async_erase, async_method_eq_sync, async_handle_eq_sync): under every suspension schedule the async expansion of every edge and of handle yields exactly the result, state, data and hook trace of the sync expansion of the same definition; the async branches of the generator add .await to every hook call and nothing else. PARTIAL: the Send clause is not a Lean theorem; it is established by rustc on the probe crates (T4 assert_send).",
+        'level_text': "Proof (C15.runAsync_eq_run, methodProg_async_erase, async_method_eq_sync, async_handle_eq_sync): under every suspension schedule the async expansion of every edge and of handle yields exactly the result, state, data and hook trace of the sync expansion of the same definition; the async branches of the generator add .await to every hook call and nothing else. PARTIAL: the Send clause is not a Lean theorem; it is established by rustc on the probe crates (T4 assert_send). RefineAsyncVeto.async_refines_spec_veto / async_replies_refine and RefineAsyncData.async_cell_refines: with vetoes, with exact replies and with the data cell, the asynchronous machine under any schedule per dispatch refines the same abstract machines as its synchronous expansion.",
         'level_note': 'That `.await` runs a hook future to completion before the next statement is the trusted reading of the fragment, validated by T3 susp (random suspension counts per hook, hand-written single-step executor). Ties: T2 regions SIG AB GC BC AC AA HD.',
-        'modules': ['SMV.Props.C15', 'SMV.Props.RefineAsync'],
+        'modules': ['SMV.Props.C15', 'SMV.Props.RefineAsync', 'SMV.Props.RefineAsyncVeto', 'SMV.Props.RefineAsyncData'],
         'regions': ['SIG', 'AB', 'GC', 'BC', 'AC', 'AA', 'HD'],
         't3': ['susp', 'abandon'],
         't4': ['send'],
@@ -145,10 +145,10 @@ PROPS = {
         'design_ref': 'DESIGN.md §7 C19',
     },
     'C03': {
-        'level_text': 'Proof, for every machine, edge, async/payload/context combination, hook lists of any length, receiver, payload, history and hook environment: the generated method returns Ok iff every guard answers true and every unless answers false (fires_iff); on the first blocking condition it returns the receiver unchanged with an error naming that condition and the event, having consulted exactly the conditions up to it in order (first_block, first_block_general with history-dependent hooks). Unbounded; tests only sample assignments.',
+        'level_text': 'Proof, for every machine, edge, async/payload/context combination, hook lists of any length, receiver, payload, history and hook environment: the generated method returns Ok iff every guard answers true and every unless answers false (fires_iff); on the first blocking condition it returns the receiver unchanged with an error naming that condition and the event, having consulted exactly the conditions up to it in order (first_block, first_block_general with history-dependent hooks). Unbounded; tests only sample assignments. RefineReply.step_reply / replies_refine: along every history under scripted hooks, each reply of handle is exactly the abstract machine\'s reply - Ok, InvalidTransition{from: current leaf, event} when no edge, the first vetoing around callback\'s error, else GuardFailed naming the first guard answering false / unless-condition answering true and the declared event.',
         'level_note': 'Theorems are about genMethod (the model of generate_transition_method) and methodProg (the trusted reading of the emitted body). Tie: T2 token-exact in regions FE SIG GC.',
         'title': 'A transition fires iff all guards hold and no unless-condition holds',
-        'modules': ['SMV.Props.C03'],
+        'modules': ['SMV.Props.C03', 'SMV.Props.RefineReply'],
         'regions': ['FE', 'SIG', 'GC'],
         't3': ['assign', 'walk', 'susp'],
         'design_ref': 'DESIGN.md §7 C03',
